@@ -16,6 +16,7 @@ import pandas as pd
 from rv import core, excelgen, monitors, reach
 
 LEVEL = 'exploration'
+LEVEL_TEXT = 'End-to-end runs of the real workflow on generated well-formed workbooks x options with an output-workbook integrity oracle, figure-file oracle and a logical step budget (sys.monitoring) for termination; write/read round trip on arbitrary tables; the shipped example in the thorough tier. Exploration.'
 TECHNIQUE = 'end-to-end run of the real workflow under an output-workbook integrity oracle, figure-file oracle and logical step budget'
 RULE = ('generated well-formed workbooks (as C10) x {plots on/off, histogram sheet on/off, explicit/default output path} x '
         'bead rows with 1,2,3 clustering channels; arbitrary tables of strings, integers, floats, empty cells (index gaps, '
